@@ -18,7 +18,8 @@ def exceptional_field_values():
     vs = [0, 1, P - 1, 2, i, P - i, (P - 1) // 2, (P + 1) // 2, 486662, P - 486662, ref.D, P - ref.D]
     # r with 1 + 2 r^2 = 0, = square, = non-square; sqrt(-1) r^2 = +-1; r^2 = -1/2 etc.
     for target in [(-ref.inv(2)) % P, ref.inv(2), (P - 1), 1, (-ref.inv(i)) % P, ref.inv(i), (-ref.D * ref.inv(i)) % P,
-                   (486662 - 1) * ref.inv(2) % P]:
+                   (-ref.inv(ref.D) * ref.inv(i)) % P, (ref.D * ref.inv(i)) % P, (ref.inv(ref.D) * ref.inv(i)) % P,
+                   (486662 - 1) * ref.inv(2) % P, (-486662) % P, 486662 * ref.inv(2) % P]:
         r = ref.fe_sqrt(target)
         if r is not None:
             vs += [r, P - r]
@@ -106,6 +107,12 @@ def gen(ctx, n):
         ms = [hx(vals.rb(rng, 4)) for _ in range(rng.choice([k, k, max(0, k - 1), k + 1]))]
         ss = [vals.rb(rng, 64).hex() for _ in range(rng.choice([k, k, max(0, k - 1), k + 1]))]
         ctx.add('sig.batch', lst(ms), lst(ss), lst([x.hex() for x in keys]), cls='batch:random')
+    # every combination of slice lengths 0..2 for (messages, signatures, keys)
+    kb = ref.ed_public(bytes(32)).hex()
+    for a_ in range(3):
+        for b_ in range(3):
+            for c_ in range(3):
+                ctx.add('sig.batch', lst(['00'] * a_), lst([vals.rb(rng, 64).hex() for _ in range(b_)]), lst([kb] * c_), cls='batch:random')
     # contexts of every length through with_context / sign_prehashed / verify_prehashed (<= 255 for verification:
     # longer verification contexts are outside the documented domain)
     seed = vals.rb(rng, 32)
